@@ -367,7 +367,9 @@ def advanced_get(R, E, arr, idx, node):
     if isinstance(idx, NdArr) and idx.kind == "bool":
         if idx.ndim != 1 and idx.ndim != arr.ndim:
             raise Unsupported("mask rank")
-        return MaskedView(arr, idx)
+        if getattr(E, "_augassign_target", False) or idx.ndim == arr.ndim and arr.ndim > 1:
+            return MaskedView(arr, idx)
+        return R.mask_select(E, arr, idx, node)
     return R.fancy_get(E, arr, idx, node)
 
 
